@@ -69,7 +69,7 @@ def seeds():
     n = len(rows)
     head = ("%d confirmed changes. Column *own*: result of the property's own quick check on the changed tree "
             "(`violation` = concrete failing input in the replay; `tie` = model/implementation differ, reported with "
-            "`no-failing-input-found`; `missed→…` = missed when first run, caught after the strengthening named in the "
+            "`no-failing-input-found`; `missed→…` / `tie→…` = missed / reported only as a tie when first run, caught with a concrete input after the strengthening named in the "
             "seed's meta.json). *others*: further checks that were run and also fail.\n\n" % n)
     return head + "| seed | change | needs | own | others |\n|---|---|---|---|---|\n" + "\n".join(rows)
 
